@@ -147,13 +147,13 @@ Proof.
   destruct (128 <=? h) eqn:Elast.
   - inversion H; subst bs rest. split; [|split; [discriminate|constructor; [exact Hsmall|constructor]]].
     cbn [render_blocks]. unfold render_block, block_bytes. cbn [bcode bdata]. rewrite Hlen, Eenc.
-    cbn [app]. unfold is_byte in Bh. f_equal; [lia|]. do 3 f_equal. rewrite <- app_assoc. symmetry. apply ztake_zdrop.
+    cbn [app]. unfold is_byte in Bh. f_equal; [lia|]. do 3 f_equal. rewrite <- ?app_assoc. symmetry. apply ztake_zdrop.
   - destruct (walk_blocks k (zdrop n body)) as [[bs' rest']|e] eqn:Erec; [|discriminate].
     inversion H; subst bs rest. destruct (IH _ _ _ Erec) as (Hd & Hne & Hall).
     split; [|split; [discriminate|constructor; assumption]].
     destruct bs' as [|b' r]; [congruence|]. rewrite render_blocks_cons.
     unfold render_block at 1, block_bytes. cbn [bcode bdata]. rewrite Hlen, Eenc.
-    cbn [app]. unfold is_byte in Bh. f_equal; [lia|]. do 3 f_equal. rewrite <- app_assoc, <- Hd. symmetry. apply ztake_zdrop.
+    cbn [app]. unfold is_byte in Bh. f_equal; [lia|]. do 3 f_equal. rewrite <- ?app_assoc, <- Hd. symmetry. apply ztake_zdrop.
 Qed.
 
 (* ------------------------------------------------------------------ mutagen's walker on well-formed block lists *)
@@ -207,16 +207,18 @@ Qed.
 Definition prefix_ok (p : list Z) : Prop :=
   forall X, id3_prefix_len (p ++ MAGIC ++ X) = Ok (zlen p) /\ mut_check_header (p ++ MAGIC ++ X) = Ok (zlen p + 4).
 
+Lemma zlen_MAGIC : zlen MAGIC = 4. Proof. reflexivity. Qed.
+
+Lemma zlen_ID3MAGIC : zlen ID3MAGIC = 3. Proof. reflexivity. Qed.
+
 Lemma prefix_ok_nil : prefix_ok [].
 Proof.
   intros X. cbn [app]. split.
   - unfold id3_prefix_len. rewrite starts_with_app. reflexivity.
   - unfold mut_check_header. rewrite starts_with_app.
     replace (zlen (MAGIC ++ X) <? 4) with false; [reflexivity|].
-    rewrite zlen_app. pose proof (zlen_nonneg X). unfold MAGIC, zlen at 1. cbn [length]. lia.
+    rewrite zlen_app, zlen_MAGIC. pose proof (zlen_nonneg X). lia.
 Qed.
-
-Lemma zlen_MAGIC : zlen MAGIC = 4. Proof. reflexivity. Qed.
 
 Lemma id3_prefix_inv f off : id3_prefix_len f = Ok off ->
   f = ztake off f ++ MAGIC ++ zdrop (off + 4) f /\ zlen (ztake off f) = off /\ prefix_ok (ztake off f).
@@ -258,7 +260,7 @@ Proof.
     intros X.
     assert (Hm : starts_with MAGIC (p ++ MAGIC ++ X) = false) by (rewrite sw_app by (rewrite zlen_MAGIC; lia); rewrite <- Hfp by (rewrite zlen_MAGIC; lia); exact Em).
     assert (Hi : starts_with ID3MAGIC (p ++ MAGIC ++ X) = true).
-    { rewrite sw_app by (unfold ID3MAGIC, zlen; cbn [length]; lia). rewrite <- Hfp by (unfold ID3MAGIC, zlen; cbn [length]; lia). exact Ei. }
+    { rewrite sw_app by (rewrite zlen_ID3MAGIC; lia). rewrite <- Hfp by (rewrite zlen_ID3MAGIC; lia). exact Ei. }
     assert (Hs6 : zslice 6 10 (p ++ MAGIC ++ X) = zslice 6 10 f) by (rewrite Hsl; apply zslice_app_l; lia).
     assert (Hlen : zlen (p ++ MAGIC ++ X) = o + 4 + zlen X) by (rewrite !zlen_app, Hp, zlen_MAGIC; lia).
     pose proof (zlen_nonneg X) as HX.
